@@ -18,11 +18,15 @@ import (
 	"context"
 	"encoding/json"
 	"fmt"
+	"github.com/google/osv-scalibr/detector"
+	fslist "github.com/google/osv-scalibr/extractor/filesystem/list"
+	"github.com/google/osv-scalibr/packageindex"
 	"os"
 	"path"
 	"reflect"
 	"regexp"
 	"sort"
+	"strconv"
 	"strings"
 	"time"
 
@@ -701,7 +705,13 @@ func runImpl(c *caseT) (outcome, any) {
 	rec := &scankit.Rec{}
 	var exs []filesystem.Extractor
 	for _, e := range c.Exs {
-		exs = append(exs, &scankit.Ex{N: e.name, Rec: rec, Req: reqFn(e.req), EmitFinding: true})
+		x := &scankit.Ex{N: e.name, Rec: rec, Req: reqFn(e.req), EmitFinding: true}
+		if len(exs) == 0 {
+			// the first extractor hands over packages that already name another extractor: the
+			// result must still attribute them to the extractor that produced them
+			x.Preset = &scankit.Ex{N: "stale-attribution"}
+		}
+		exs = append(exs, x)
 	}
 	m := memfs.New(c.root)
 	m.NoReadDirFile = c.Opts.NoRDF
@@ -939,6 +949,9 @@ func main() {
 		return
 	}
 	maxNodes := ev.Pick(r, 4, 6)
+	if v, err := strconv.Atoi(os.Getenv("VERIF_C01_MAXNODES")); err == nil {
+		maxNodes = v // development aid: smaller trees for a fast run of the side families (the evidence then says exhaustive for that bound only)
+	}
 	maxDev := ev.Pick(r, 2, 3)
 	ls := labels(r.Thorough())
 	sort.SliceStable(ls, func(i, j int) bool { return ls[i].name < ls[j].name })
@@ -952,6 +965,7 @@ func main() {
 	lap("two-different-roots")
 	twoRootsWithOptions(r, ls)
 	lap("two-roots-with-options")
+	requiredExtractors(r)
 	wideDirectories(r)
 	lap("wide-directories")
 	defer func() {}()
@@ -1025,7 +1039,7 @@ func main() {
 	r.Set("bound", map[string]any{"max_nodes_completed": completedNodes, "max_option_deviations": maxDev, "extractor_sets": len(exSets)})
 	r.Assume("reference dispatch model (this file, ~200 lines) states git's .gitignore semantics for the 5-pattern alphabet and the skip rules of the property text")
 	r.Assume("regular-expression and glob *matching* are taken from the same libraries the implementation uses; only the dispatch logic is under test")
-	r.Finish(fmt.Sprintf("every tree with <=%d labelled nodes (names a, a.d, b.txt, 'd e', -x, .gitignore(8 bodies incl. a negation and CRLF line ends; 4 in quick), pkg.json; dirs, files of size 0/1/5, exec bit, symlinks to file/dir/dangling, named pipe) x every option vector with <=%d deviations from the defaults (skip list, regex, glob, gitignore, requested paths incl. dir+file and '.', sub-dir cut-off, max size 1/5, symlinks, absolute paths, ReadDirFile on/off, virtual root vs. root with a host path and absolute skip/request paths) x %d extractor sets (quick: 2 of them on 4-node trees); Scanner.Scan over memfs vs reference dispatch model (trees <=3 nodes: scanned twice with the same configuration and plugin instances, second scan must equal the first); plus two virtual roots with different content (the tree and the tree without its top-level .gitignore / with other sizes, both orders) under every option vector with <=2 deviations, each root judged by the model on its own; plus one directory of W entries for every W<=%d and 2^k-1,2^k,2^k+1,1.5*2^k up to %d x 3 placements x 5 directory-listing behaviours (ReadDir, ReadDirFile full batches, short batches of 1/3/100); non-trivial = some option active and >=1 extraction expected", maxNodes, maxDev, len(exSets), ev.Pick(r, 40, 300), ev.Pick(r, 1024, 4096)), completedNodes == maxNodes)
+	r.Finish(fmt.Sprintf("every tree with <=%d labelled nodes (names a, a.d, b.txt, 'd e', -x, .gitignore(8 bodies incl. a negation and CRLF line ends; 4 in quick), pkg.json; dirs, files of size 0/1/5, exec bit, symlinks to file/dir/dangling, named pipe) x every option vector with <=%d deviations from the defaults (skip list, regex, glob, gitignore, requested paths incl. dir+file and '.', sub-dir cut-off, max size 1/5, symlinks, absolute paths, ReadDirFile on/off, virtual root vs. root with a host path and absolute skip/request paths) x %d extractor sets (quick: 2 of them on 4-node trees); Scanner.Scan over memfs vs reference dispatch model (trees <=3 nodes: scanned twice with the same configuration and plugin instances, second scan must equal the first); plus two virtual roots with different content (the tree and the tree without its top-level .gitignore / with other sizes, both orders) under every option vector with <=2 deviations, each root judged by the model on its own; plus EnableRequiredExtractors for every list of 1..3 detectors requiring the same / different / no extractors; plus one directory of W entries for every W<=%d and 2^k-1,2^k,2^k+1,1.5*2^k up to %d x 3 placements x 5 directory-listing behaviours (ReadDir, ReadDirFile full batches, short batches of 1/3/100); non-trivial = some option active and >=1 extraction expected", maxNodes, maxDev, len(exSets), ev.Pick(r, 40, 300), ev.Pick(r, 1024, 4096)), completedNodes == maxNodes)
 }
 
 func replay(r *ev.Run, p string) {
@@ -1426,5 +1440,79 @@ func twoRootsWithOptions(r *ev.Run, ls []label) {
 				}
 			}
 		})
+	}
+}
+
+// requiredExtractors: "enabled" also means enabled on behalf of a detector. For every list of 1..3
+// detectors over {requires python/requirements, requires python/requirements + javascript/packagejson,
+// requires nothing} and every initial extractor list (empty / python/requirements already there),
+// EnableRequiredExtractors followed by Scan reports each package of the tree once and one status
+// per plugin: an extractor required twice still runs once per file.
+func requiredExtractors(r *ev.Run) {
+	reqs := [][]string{{"python/requirements"}, {"python/requirements", "javascript/packagejson"}, nil}
+	tree := memfs.D("", memfs.F("requirements.txt", "flask==1.0\n"), memfs.D("a", memfs.F("package.json", `{"name":"n","version":"1.0.0"}`)))
+	var lists [][]int
+	for a := 0; a < 3; a++ {
+		lists = append(lists, []int{a})
+		for b := 0; b < 3; b++ {
+			lists = append(lists, []int{a, b})
+			for c := 0; c < 3; c++ {
+				lists = append(lists, []int{a, b, c})
+			}
+		}
+	}
+	for _, l := range lists {
+		for _, pre := range []bool{false, true} {
+			var dets []detector.Detector
+			for i, k := range l {
+				dets = append(dets, &scankit.Det{N: fmt.Sprintf("det-%d", i), Required: reqs[k], Fn: func(context.Context, *scalibrfs.ScanRoot, *packageindex.PackageIndex) ([]*detector.Finding, error) {
+					return nil, nil
+				}})
+			}
+			cfg := &scalibr.ScanConfig{Detectors: dets, Capabilities: &plugin.Capabilities{OS: plugin.OSLinux, Network: plugin.NetworkOffline}, ScanRoots: []*scalibrfs.ScanRoot{{FS: memfs.New(tree), Path: ""}}}
+			if pre {
+				ex, err := fslist.ExtractorFromName("python/requirements")
+				if err != nil {
+					r.Violation("required-extractors:registry", err.Error(), nil)
+					return
+				}
+				cfg.FilesystemExtractors = []filesystem.Extractor{ex}
+			}
+			r.Evals.Add(1)
+			desc := map[string]any{"detector_requirements": l, "requirements_extractor_preconfigured": pre}
+			if err := cfg.EnableRequiredExtractors(); err != nil {
+				r.Violation("required-extractors:error", fmt.Sprintf("detectors %v preconfigured %v: %v", l, pre, err), desc)
+				continue
+			}
+			res := scalibr.New().Scan(context.Background(), cfg)
+			seen := map[string]int{}
+			for _, p := range res.Inventory.Packages {
+				seen[p.Name+"@"+p.Version+"@"+strings.Join(p.Locations, ",")]++
+			}
+			st := map[string]int{}
+			for _, s := range res.PluginStatus {
+				st[s.Name]++
+			}
+			needReq, needJS := pre, false
+			for _, k := range l {
+				needReq = needReq || k <= 1
+				needJS = needJS || k == 1
+			}
+			want := map[string]int{}
+			if needReq {
+				want["flask@1.0@requirements.txt"] = 1
+			}
+			if needJS {
+				want["n@1.0.0@a/package.json"] = 1
+			}
+			r.Nontrivial.Add(1)
+			dup := false
+			for _, n := range st {
+				dup = dup || n > 1
+			}
+			if !reflect.DeepEqual(seen, want) || dup {
+				r.Violation("required-extractor-runs-more-than-once", fmt.Sprintf("detectors requiring %v, python/requirements preconfigured %v: packages %v (want %v), status entries %v", l, pre, seen, want, st), desc)
+			}
+		}
 	}
 }
